@@ -199,16 +199,18 @@ class Select(BasePoller):
             # OK, I really don't know what's going on.  Blow up.
             raise
 
-        for sock in w:
-            if self.isWriting(sock):
-                self.fire(_write(sock), self.getTarget(sock))
-
+        # readable before writable, as Poll and EPoll report them: what a peer
+        # sent before it went away is read before a failing write closes
         for sock in r:
             if sock == self._ctrl_recv:
                 self._read_ctrl()
                 continue
             if self.isReading(sock):
                 self.fire(_read(sock), self.getTarget(sock))
+
+        for sock in w:
+            if self.isWriting(sock):
+                self.fire(_write(sock), self.getTarget(sock))
         return None
 
 
